@@ -57,6 +57,7 @@ def run(ctx: Ctx, rep: Report) -> None:
     rep.rule("C03-R4", "every fetch of the walk loop is covered: lenient mode ends the walk normally, strict mode re-raises", floor=2)
     rep.rule("C03-R6", "the pythonic walk / table methods forward the error mode and the roots to the raw operations unchanged (shared with C15-R4)", floor=2)
     rep.rule("C03-R5", "the continuation list is renewed on every path to the back edge", floor=2)
+    rep.rule("C03-R7", "a root is continued only while its last answer lies inside it (containment by arcs), from that last answer (shared with C01-R6)", floor=1)
     rep.assumptions += [
         "the OID universe the agent reveals is finite",
         "x690 ObjectIdentifier.__lt__ is the lexicographic order on arcs",
@@ -82,6 +83,9 @@ def run(ctx: Ctx, rep: Report) -> None:
     check_handlers(ctx, rep, wm)
     check_loop_renewal(ctx, rep, wm)
     rep.adopt_rules(ctx.sub_run("c15", rep), "C03-R6", ["C15-R4"])
+    # a root whose last answer left the subtree must not be continued: it would be walked again from an OID another
+    # root (or nobody) already continued from
+    rep.adopt_rules(ctx.sub_run("c01", rep), "C03-R7", ["C01-R6"])
 
 
 def check_fetcher(ctx: Ctx, rep: Report, wm: WalkModel, f: FuncInfo) -> None:
